@@ -23,7 +23,6 @@ import (
 	"os"
 	"runtime"
 	"sort"
-	"strings"
 	"sync"
 	"testing"
 
@@ -101,12 +100,12 @@ type sbConc struct{ salt string }
 // account ids are address sized (AccountState.ID pads shorter ones)
 func (c sbConc) id(name string) []byte {
 	b := make([]byte, types.AddressLength)
-	copy(b, common.Hasher([]byte("verif/" + c.salt + "/" + name)))
+	copy(b, common.Hasher([]byte("verif/"+c.salt+"/"+name)))
 	b[types.AddressLength-1] = 0x33
 	return b
 }
-func (c sbConc) key(k string) []byte    { return []byte(c.salt + ":" + k) }
-func (c sbConc) val(v string) []byte    { return []byte("value-" + v + "-" + c.salt) }
+func (c sbConc) key(k string) []byte             { return []byte(c.salt + ":" + k) }
+func (c sbConc) val(v string) []byte             { return []byte("value-" + v + "-" + c.salt) }
 func (c sbConc) aid(name string) types.AccountID { return types.ToAccountID(c.id(name)) }
 
 func sbNonce(v string) uint64 { // "v7" -> 7
@@ -772,12 +771,12 @@ func (m *gmModel) obs() *sbObs {
 // ---------------------------------------------------------------- the test
 
 type sbReplay struct {
-	Part  string  `json:"part"`
-	Salt  string  `json:"salt"`
-	Walk  int     `json:"walk"`
-	Step  int     `json:"step"`
-	Acts  []sbAct `json:"acts"` // the walk up to and including the failing step
-	Seed  int64   `json:"seed,omitempty"`
+	Part string  `json:"part"`
+	Salt string  `json:"salt"`
+	Walk int     `json:"walk"`
+	Step int     `json:"step"`
+	Acts []sbAct `json:"acts"` // the walk up to and including the failing step
+	Seed int64   `json:"seed,omitempty"`
 }
 
 func sbActKey(a *sbAct) string {
@@ -991,5 +990,4 @@ func TestVerifStateBuffer(t *testing.T) {
 		}
 		res.Note("recorded %d random walks (%d bytes) for trace validation", n, all.Len())
 	}
-	_ = strings.Join
 }
